@@ -7,6 +7,7 @@ package main
 import (
 	"fmt"
 	"math/big"
+	"sort"
 	"strings"
 )
 
@@ -19,6 +20,55 @@ type Term struct {
 	C    *big.Int
 	s    string // cached rendering
 	Deps []*Term // raw leaves: symbols mentioned inside
+	Def  *Term   // leaf only: this symbol abbreviates Def (rendered as define-fun); see name()
+	hasBound bool // mentions a quantifier-bound variable (never abbreviated)
+	hasQ     bool // contains a quantifier (never abbreviated, so that "(forall " stays visible)
+	Pre      bool // leaf: a reference known to be pre-existing (< alloc0), hence distinct from every allocation of this call
+}
+
+// Large terms are abbreviated by fresh symbols defined with define-fun: in-memory terms are DAGs, and
+// rendering them as trees made single obligations tens of megabytes. An abbreviation is a conservative
+// extension (the symbol is *defined*), so it is sound in hypotheses and in goals alike.
+var (
+	defByStr      = map[string]*Term{}
+	defCtr        int
+	nameThreshold = 220
+)
+
+func (t *Term) core() *Term {
+	for t.Def != nil {
+		t = t.Def
+	}
+	return t
+}
+
+func finish(t *Term) *Term {
+	for _, a := range t.Args {
+		if a.hasBound {
+			t.hasBound = true
+		}
+		if a.hasQ {
+			t.hasQ = true
+		}
+	}
+	if t.hasBound || t.hasQ || nameThreshold <= 0 {
+		return t
+	}
+	n := len(t.Op) + 2
+	for _, a := range t.Args {
+		n += len(a.String()) + 1
+	}
+	if n < nameThreshold {
+		return t
+	}
+	k := t.String()
+	if d, ok := defByStr[k]; ok {
+		return d
+	}
+	defCtr++
+	d := &Term{Leaf: fmt.Sprintf("d!%d", defCtr), W: t.W, Sort: t.Sort, Def: t}
+	defByStr[k] = d
+	return d
 }
 
 var (
@@ -90,9 +140,9 @@ func (t *Term) String() string {
 	return t.s
 }
 
-func app(op string, w int, args ...*Term) *Term { return &Term{Op: op, Args: args, W: w} }
+func app(op string, w int, args ...*Term) *Term { return finish(&Term{Op: op, Args: args, W: w}) }
 func appSort(op, sort string, args ...*Term) *Term {
-	return &Term{Op: op, Args: args, W: -1, Sort: sort}
+	return finish(&Term{Op: op, Args: args, W: -1, Sort: sort})
 }
 
 // ---- Bool ----
@@ -101,8 +151,8 @@ func Not(a *Term) *Term {
 	if a.IsConst() {
 		return Bool(a.IsFalse())
 	}
-	if a.Op == "not" {
-		return a.Args[0]
+	if a.core().Op == "not" {
+		return a.core().Args[0]
 	}
 	return app("not", 0, a)
 }
@@ -163,9 +213,7 @@ func Ite(c, a, b *Term) *Term {
 			return Not(c)
 		}
 	}
-	t := app("ite", a.W, c, a, b)
-	t.Sort = a.Sort
-	return t
+	return finish(&Term{Op: "ite", Args: []*Term{c, a, b}, W: a.W, Sort: a.Sort})
 }
 func Eq(a, b *Term) *Term {
 	if a.IsConst() && b.IsConst() {
@@ -204,6 +252,150 @@ func bin(op string, a, b *Term, f func(x, y *big.Int) *big.Int) *Term {
 }
 func isZero(t *Term) bool { return t.IsConst() && t.C.Sign() == 0 }
 
+// ---- byte-lane normal form ----
+// A term assembled from zero-extended pieces at disjoint bit positions (the usual way of reading a little- or
+// big-endian integer byte by byte, with + or |, in any width) is rebuilt as one concat of its pieces, so that the
+// code's and the specification's formulation of the same read become syntactically equal.
+
+type lane struct {
+	lo int
+	t  *Term
+}
+
+func lanesOf(t *Term, depth int) ([]lane, bool) {
+	if depth > 12 {
+		return nil, false
+	}
+	if t.IsConst() {
+		if t.C.Sign() == 0 {
+			return nil, true
+		}
+		return nil, false
+	}
+	c := t.core()
+	switch {
+	case strings.HasPrefix(c.Op, "(_ zero_extend"):
+		x := c.Args[0]
+		if ls, ok := lanesOf(x, depth+1); ok && len(ls) > 0 && x.core().Op != "select" {
+			return ls, true
+		}
+		return []lane{{0, x}}, true
+	case c.Op == "concat":
+		hi, ok1 := lanesOf(c.Args[0], depth+1)
+		lo, ok2 := lanesOf(c.Args[1], depth+1)
+		if !ok1 {
+			hi, ok1 = []lane{{0, c.Args[0]}}, true
+		}
+		if !ok2 {
+			lo, ok2 = []lane{{0, c.Args[1]}}, true
+		}
+		out := append([]lane{}, lo...)
+		for _, l := range hi {
+			out = append(out, lane{l.lo + c.Args[1].W, l.t})
+		}
+		return out, true
+	case c.Op == "bvshl" && c.Args[1].IsConst():
+		ls, ok := lanesOf(c.Args[0], depth+1)
+		if !ok || c.Args[1].C.BitLen() > 16 {
+			return nil, false
+		}
+		sh := int(c.Args[1].C.Int64())
+		var out []lane
+		for _, l := range ls {
+			if l.lo+sh+l.t.W > t.W {
+				if l.lo+sh >= t.W {
+					continue
+				}
+				return nil, false // a piece would be cut: leave the term alone
+			}
+			out = append(out, lane{l.lo + sh, l.t})
+		}
+		return out, true
+	case c.Op == "bvor" || c.Op == "bvadd" || c.Op == "bvxor":
+		a, ok1 := lanesOf(c.Args[0], depth+1)
+		b, ok2 := lanesOf(c.Args[1], depth+1)
+		if !ok1 || !ok2 {
+			return nil, false
+		}
+		return mergeLanes(a, b)
+	case c.Op == "select" && t.W == 8:
+		return []lane{{0, t}}, true
+	}
+	return nil, false
+}
+
+func mergeLanes(a, b []lane) ([]lane, bool) {
+	out := append(append([]lane{}, a...), b...)
+	sort.Slice(out, func(i, j int) bool { return out[i].lo < out[j].lo })
+	for i := 1; i < len(out); i++ {
+		if out[i-1].lo+out[i-1].t.W > out[i].lo {
+			return nil, false // overlapping bits: + | ^ differ
+		}
+	}
+	return out, true
+}
+
+func buildLanes(ls []lane, w int) *Term {
+	if len(ls) == 0 {
+		return BVu(0, w)
+	}
+	var t *Term
+	pos := 0
+	for _, l := range ls {
+		if l.lo > pos {
+			z := BVu(0, l.lo-pos)
+			if t == nil {
+				t = z
+			} else {
+				t = rawConcat(z, t)
+			}
+		}
+		if t == nil {
+			t = l.t
+		} else {
+			t = rawConcat(l.t, t)
+		}
+		pos = l.lo + l.t.W
+	}
+	if pos < w {
+		t = rawConcat(BVu(0, w-pos), t)
+	}
+	return t
+}
+
+func rawConcat(hi, lo *Term) *Term {
+	if hi.IsConst() && lo.IsConst() {
+		v := new(big.Int).Lsh(hi.C, uint(lo.W))
+		return BVConst(v.Or(v, lo.C), hi.W+lo.W)
+	}
+	return app("concat", hi.W+lo.W, hi, lo)
+}
+
+// laneJoin returns the lane normal form of a OP b (OP in + | ^) when both sides are lane terms on disjoint bits.
+func laneJoin(a, b *Term) *Term {
+	if a.W < 16 || a.IsConst() || b.IsConst() {
+		return nil
+	}
+	la, ok1 := lanesOf(a, 0)
+	if !ok1 || len(la) == 0 {
+		return nil
+	}
+	lb, ok2 := lanesOf(b, 0)
+	if !ok2 || len(lb) == 0 {
+		return nil
+	}
+	m, ok := mergeLanes(la, lb)
+	if !ok {
+		return nil
+	}
+	for _, l := range m {
+		if l.lo+l.t.W > a.W {
+			return nil
+		}
+	}
+	return buildLanes(m, a.W)
+}
+
 func Add(a, b *Term) *Term {
 	if isZero(a) {
 		return b
@@ -211,9 +403,14 @@ func Add(a, b *Term) *Term {
 	if isZero(b) {
 		return a
 	}
+	if a.W == b.W {
+		if j := laneJoin(a, b); j != nil {
+			return j
+		}
+	}
 	// (x + c1) + c2 => x + (c1+c2)
-	if b.IsConst() && a.Op == "bvadd" && a.Args[1].IsConst() {
-		return Add(a.Args[0], BVConst(new(big.Int).Add(a.Args[1].C, b.C), a.W))
+	if ac := a.core(); b.IsConst() && ac.Op == "bvadd" && ac.Args[1].IsConst() {
+		return Add(ac.Args[0], BVConst(new(big.Int).Add(ac.Args[1].C, b.C), a.W))
 	}
 	return bin("bvadd", a, b, func(x, y *big.Int) *big.Int { return new(big.Int).Add(x, y) })
 }
@@ -254,6 +451,11 @@ func BOr(a, b *Term) *Term {
 	if isZero(b) {
 		return a
 	}
+	if a.W == b.W {
+		if j := laneJoin(a, b); j != nil {
+			return j
+		}
+	}
 	return bin("bvor", a, b, func(x, y *big.Int) *big.Int { return new(big.Int).Or(x, y) })
 }
 func BXor(a, b *Term) *Term {
@@ -264,10 +466,10 @@ func UDiv(a, b *Term) *Term {
 		return BVConst(new(big.Int).Div(a.C, b.C), a.W)
 	}
 	// digit extraction normal form: (x % (n*k)) / n  ==>  (x / n) % k   (Nat.mod_mul_right_div_self)
-	if b.IsConst() && b.C.Sign() != 0 && a.Op == "bvurem" && a.Args[1].IsConst() {
-		q, r := new(big.Int).QuoRem(a.Args[1].C, b.C, new(big.Int))
+	if ac := a.core(); b.IsConst() && b.C.Sign() != 0 && ac.Op == "bvurem" && ac.Args[1].IsConst() {
+		q, r := new(big.Int).QuoRem(ac.Args[1].C, b.C, new(big.Int))
 		if r.Sign() == 0 && q.Sign() != 0 {
-			return URem(UDiv(a.Args[0], b), BVConst(q, a.W))
+			return URem(UDiv(ac.Args[0], b), BVConst(q, a.W))
 		}
 	}
 	return app("bvudiv", a.W, a, b)
@@ -283,10 +485,10 @@ func SDiv(a, b *Term) *Term {
 		return BVConst(new(big.Int).Quo(a.signedVal(), b.signedVal()), a.W)
 	}
 	// same normal form for truncated signed division with positive constant divisors
-	if b.IsConst() && b.signedVal().Sign() > 0 && a.Op == "bvsrem" && a.Args[1].IsConst() && a.Args[1].signedVal().Sign() > 0 {
-		q, r := new(big.Int).QuoRem(a.Args[1].C, b.C, new(big.Int))
+	if ac := a.core(); b.IsConst() && b.signedVal().Sign() > 0 && ac.Op == "bvsrem" && ac.Args[1].IsConst() && ac.Args[1].signedVal().Sign() > 0 {
+		q, r := new(big.Int).QuoRem(ac.Args[1].C, b.C, new(big.Int))
 		if r.Sign() == 0 && q.Sign() != 0 {
-			return SRem(SDiv(a.Args[0], b), BVConst(q, a.W))
+			return SRem(SDiv(ac.Args[0], b), BVConst(q, a.W))
 		}
 	}
 	return app("bvsdiv", a.W, a, b)
@@ -388,6 +590,11 @@ func Concat(hi, lo *Term) *Term {
 		v := new(big.Int).Lsh(hi.C, uint(lo.W))
 		return BVConst(v.Or(v, lo.C), hi.W+lo.W)
 	}
+	// canonical (lane) nesting, so that reads assembled differently coincide
+	t := &Term{Op: "concat", Args: []*Term{hi, lo}, W: hi.W + lo.W}
+	if ls, ok := lanesOf(t, 0); ok && len(ls) > 0 {
+		return buildLanes(ls, t.W)
+	}
 	return app("concat", hi.W+lo.W, hi, lo)
 }
 
@@ -398,8 +605,8 @@ func baseOff(t *Term) (string, *big.Int) {
 	if t.IsConst() {
 		return "", t.C
 	}
-	if t.Op == "bvadd" && len(t.Args) == 2 && t.Args[1].IsConst() {
-		return t.Args[0].String(), t.Args[1].C
+	if tc := t.core(); tc.Op == "bvadd" && len(tc.Args) == 2 && tc.Args[1].IsConst() {
+		return tc.Args[0].String(), tc.Args[1].C
 	}
 	return t.String(), big.NewInt(0)
 }
@@ -411,17 +618,28 @@ func distinctIdx(a, b *Term) bool {
 	}
 	ba, oa := baseOff(a)
 	bb, ob := baseOff(b)
-	return ba == bb && oa.Cmp(ob) != 0
+	if ba == bb && oa.Cmp(ob) != 0 {
+		return true
+	}
+	// a pre-existing reference differs from alloc0+k (k >= 1, no wrap: alloc0 < 2^62 and k is small)
+	if a.Pre && bb == "alloc0" && ob.Sign() > 0 && ob.BitLen() < 32 {
+		return true
+	}
+	if b.Pre && ba == "alloc0" && oa.Sign() > 0 && oa.BitLen() < 32 {
+		return true
+	}
+	return false
 }
 
 // skipStores applies read-over-write for syntactically equal / provably distinct indices.
 func skipStores(arr, idx *Term) (*Term, *Term) {
-	for arr.Op == "store" {
-		if arr.Args[1].String() == idx.String() {
-			return nil, arr.Args[2]
+	for arr.core().Op == "store" {
+		ac := arr.core()
+		if ac.Args[1].String() == idx.String() {
+			return nil, ac.Args[2]
 		}
-		if distinctIdx(arr.Args[1], idx) {
-			arr = arr.Args[0]
+		if distinctIdx(ac.Args[1], idx) {
+			arr = ac.Args[0]
 			continue
 		}
 		break
@@ -457,9 +675,15 @@ func (t *Term) leaves(m map[string]*Term) {
 		return
 	}
 	if t.Op == "" {
+		if _, seen := m[t.Leaf]; seen {
+			return
+		}
 		m[t.Leaf] = t
 		for _, d := range t.Deps {
 			d.leaves(m)
+		}
+		if t.Def != nil {
+			t.Def.leaves(m)
 		}
 		return
 	}
@@ -489,7 +713,12 @@ func sortOf(t *Term) string {
 
 
 // Forall builds a universally quantified formula over a 64-bit bound variable.
-func Forall(bv, body *Term) *Term { return &Term{Op: "forall", Args: []*Term{bv, body}, W: 0} }
+func Forall(bv, body *Term) *Term {
+	return &Term{Op: "forall", Args: []*Term{bv, body}, W: 0, hasQ: true}
+}
+
+// BoundVar makes a fresh quantifier-bound variable; terms that mention it are never abbreviated.
+func BoundVar(name string, w int) *Term { return &Term{Leaf: name, W: w, hasBound: true} }
 
 
 // subst replaces the leaf symbol name by repl throughout t.
@@ -514,5 +743,5 @@ func subst(t *Term, name string, repl *Term) *Term {
 	if !changed {
 		return t
 	}
-	return &Term{Op: t.Op, Args: args, W: t.W, Sort: t.Sort}
+	return finish(&Term{Op: t.Op, Args: args, W: t.W, Sort: t.Sort})
 }
